@@ -34,6 +34,19 @@ def _check_chunk(cases):
                         if not expr.agrees(want, got, rtol=1e-9):
                             bad("cat:" + name, "%s on table %r: expected %r observed %r" % (name, c["T"], want, float(got)),
                                 {"metric": name, "expected": want, "observed": float(got)})
+                        # the same table as plain Python numbers (what the resampling path and a caller of the API hand over): an undefined
+                        # score is NaN there too, never an exception or infinity (after seed C06-j)
+                        for conv in (int, float):
+                            try:
+                                with np.errstate(all="ignore"):
+                                    got2 = m.compute_from_abcd(*[conv(x) for x in c["T"]])
+                                n += 1
+                                if not expr.agrees(want, got2, rtol=1e-9):
+                                    bad("cat:" + name + ":python-numbers", "%s on table %r given as Python %s: expected %r observed %r"
+                                        % (name, c["T"], conv.__name__, want, float(got2)), {"metric": name, "expected": want, "observed": float(got2)})
+                            except ArithmeticError as ex:
+                                bad("cat:" + name + ":python-numbers", "%s on table %r given as Python %s: expected %r, raised %r" % (name, c["T"], conv.__name__, want, ex),
+                                    {"metric": name, "expected": want, "observed": repr(ex)})
                     else:
                         obs = np.array([num(x) for x in c["o"]], float)
                         fcst = np.array([num(x) for x in c["f"]], float)
@@ -107,7 +120,7 @@ def _through_driver(ctx, limit):
 def run(ctx):
     ctx.rule = ("case = a 2x2 table (all tables with total <= 8 quick / 14 thorough) or a pair vector of length <= 2-3 over values placed "
                 "below/at/between/at/above the thresholds and missing, x 8 bin types; x 25 metrics; non-trivial = a zero count or a missing value")
-    ctx.assumptions = ["compute_from_abcd is called with np.int64 counts and total >= 1, as on the real call path"]
+    ctx.assumptions = ["compute_from_abcd is called with np.int64 counts (the dataset path) and with Python ints / floats (the resampling path), total >= 1"]
     if ctx.tier == "quick":
         _run(ctx, "MC_Contingency_quick")
         _run(ctx, "MC_Contingency_pairsquick")
